@@ -15,7 +15,12 @@ RULE = ("(a) every recipient string over {u,a,A,@,%%,.} up to length %s under th
         "Every output is compared with the Lean model (Nq.Rewrite: hash-table constmap, rewrite, senderadd, todo_do, HUP acceptor) and judged by the "
         "oracle = the documented rules (Nq.Route: routeSpec/verpSpec/specCfg/specHup) evaluated on the implementation's output; configurations "
         "with a repeated key are compared with the model only. non-trivial = distinct (configuration, recipient) routed local/virtual or "
-        "percent-hacked, or VERP sender actually expanded")
+        "percent-hacked, or VERP sender actually expanded; (f) letter leg (exhaustive, seed-independent): each of the 56 bytes A..Z a..z @ [ ` { as a one-letter "
+        "label in envnoathost, locals, percenthack and every kind of virtualdomains entry (user@domain, domain, .suffix wildcard, exception, with/without catch-all), "
+        "key and envnoathost each written in either case, probed with the same byte, the other case, both neighbouring bytes and the byte differing in bit 5, "
+        "and the same bytes through constmap/hash/case_diffb directly; (g) alphabet legs (seeded, own random stream): nconfigs/3 control directories and nscen/8 "
+        "real-daemon scenarios whose labels, users and tags are random strings over the whole alphabet (ends favoured, some digits - [ ` {), every occurrence "
+        "re-cased independently, recipients with near misses (letter -> next/previous byte or @ [ ` {, one label more/less), plus constmap tables over the whole alphabet")
 
 FIXED_G = "G 610a 752e610a 610a412e750a 610a752e610a750a 7540753a740a753a760a2e753a770a2e612e753a0a7540752e753a0a"
 ALPHA = b"ua@%.AbB:"
@@ -57,7 +62,9 @@ def mutate(dis, seed):
                 b = unhx(inp)
                 cases.append(g)
                 cases.append("R " + hx(b))
+                cases += ["R " + hx(x) for x in (b.swapcase(), b.upper(), b.lower())]
                 cases += ["R " + hx(mut_bytes(rnd, b)) for _ in range(300)]
+                cases += ["R " + hx(mut_bytes(rnd, b, b.swapcase() + b"@.%")) for _ in range(100)]
             elif kind == "G":
                 g = f["g"].split(",")
                 probes = set()
@@ -66,7 +73,7 @@ def mutate(dis, seed):
                         for l in unhx(fld).replace(b":", b"\n").split(b"\n"):
                             l = l.strip()
                             if l:
-                                probes.update([l, b"u@" + l, b"u%" + l + b"@" + l, l.upper()])
+                                probes.update([l, b"u@" + l, b"u%" + l + b"@" + l, l.upper(), l.swapcase(), b"u@" + l.swapcase()])
                 cases.append("G " + " ".join(g))
                 cases += ["R " + hx(p) for p in sorted(probes)]
                 cases += ["R " + hx(mut_bytes(rnd, p)) for p in sorted(probes) for _ in range(10)]
